@@ -58,7 +58,7 @@ def nontrivial(request, impl):
     if proto == "semi":
         # non-trivial: a semicolon was written
         return parts[3] == "1"
-    if proto in ("hangop", "fieldkey", "punct"):
+    if proto in ("hangop", "fieldkey", "punct", "sugar"):
         return True
     if proto == "endtoken":
         return any(x[0] in "LB" for x in parts[3].split(";"))
@@ -208,11 +208,11 @@ TRIVIA_RULE = ("ring 2 (`semi`): seeded statement pairs A;B - A one of 6 kinds w
 PROPS["C03"] = {
     "lean_modules": ["StyluaModel.Props.C03"],
     "theorem_prefix": "C03_",
-    "required_theorems": ["C03_load", "C03_text_line", "C03_text_block", "C03_paren_partial", "C03_sort_perm", "C03_eof_comments", "C03_semi_required", "C03_semi_removed", "C03_semi_removed_needs_newline", "C03_semi_swallow_witness", "C03_hang_binop", "C03_hang_binop_fuses_witness", "C03_field_key", "C03_field_key_name_partial", "C03_field_key_name_loses_key_trailing", "C03_end_token", "C03_punct_comma"],
+    "required_theorems": ["C03_load", "C03_text_line", "C03_text_block", "C03_paren_partial", "C03_sort_perm", "C03_eof_comments", "C03_semi_required", "C03_semi_removed", "C03_semi_removed_needs_newline", "C03_semi_swallow_witness", "C03_hang_binop", "C03_hang_binop_fuses_witness", "C03_field_key", "C03_field_key_name_partial", "C03_field_key_name_loses_key_trailing", "C03_end_token", "C03_punct_comma", "C03_sugar_add", "C03_sugar_drop_partial", "C03_sugar_drop_loses_paren_comments"],
     "hx": [["c03"], ["pipe"], ["slots"], ["c12"], ["progen"]],
     "level": "proof",
     "level_text": "Proof, partial: load_token_trivia (through which every token's trivia passes) keeps every comment once, in order, with kind and level, text normalised only by trim_end / newline conversion (theorems for lists of any length); the parenthesis transplant carries a sublist (full preservation is proven false of the code: counterexample theorem); require sorting is a permutation; the trivia of a kept, added or dropped semicolon (format_block) carries every comment of the statement and of the semicolon once and in order - given the statement's trailing trivia ends with its newline, and with the same-line swallowing by a trailing line comment exhibited as a computed witness (D23 family); hang_binop gathers the comments around a hung operator once and in order (with the fusing of a trailing comment into a preceding line comment as a computed witness); the comments around a table field's key and `=` are all moved in front of a bracketed key, and all but those behind the key for a name key (proved partial statement + witness: D29, whose mechanism - Node::surrounding_trivia on a one-token node - the correspondence exposed); format_end_token keeps every comment in front of a closing token while removing the blank lines. That every construct routes every token through these functions is carried by the comment-slot enumeration (every token gap of 46 constructs) and the corpus census, whose unchanged-tree failures are listed exactly.",
-    "level_note": "Trusted: Lean kernel; Model/Trivia.lean tied by the `trivia` correspondence (~1.4e4 requests per run), Model/Semi.lean by the `semi` correspondence (the bytes between a statement and its successor, for 6 statement kinds x comments before / after the semicolon x required or not x both line endings; ~3e3 distinct requests); census oracle uses full_moon's tokenizer on input and output. Model/HangOp.lean (hang_binop: comments in front of / behind a hung operator and in front of its right operand) by the `hangop` correspondence (6 operators x 0-2 comments per slot x nesting x both line endings; ~4e3 distinct requests, bytes between the operands). Model/HangOp.lean `FieldKey` (comments around a table field's key and `=`; name and bracketed keys) by the `fieldkey` correspondence (~4e3 distinct requests, bytes in front of the key). Model/EndToken.lean (format_end_token: comments and blank lines in front of `end` / a closing token of do, while, for, function and if blocks) by the `endtoken` correspondence (~3e3 distinct requests). Model/HangOp.lean `Punct` (format_punctuated_multiline: the comma of a one-value-per-line list in `return` and local assignments) by the `punct` correspondence (~4e3 distinct requests). The other transplant sites (argument lists of calls, call sugar, field separators) have no model yet: they are covered by ring 3 only.",
+    "level_note": "Trusted: Lean kernel; Model/Trivia.lean tied by the `trivia` correspondence (~1.4e4 requests per run), Model/Semi.lean by the `semi` correspondence (the bytes between a statement and its successor, for 6 statement kinds x comments before / after the semicolon x required or not x both line endings; ~3e3 distinct requests); census oracle uses full_moon's tokenizer on input and output. Model/HangOp.lean (hang_binop: comments in front of / behind a hung operator and in front of its right operand) by the `hangop` correspondence (6 operators x 0-2 comments per slot x nesting x both line endings; ~4e3 distinct requests, bytes between the operands). Model/HangOp.lean `FieldKey` (comments around a table field's key and `=`; name and bracketed keys) by the `fieldkey` correspondence (~4e3 distinct requests, bytes in front of the key). Model/EndToken.lean (format_end_token: comments and blank lines in front of `end` / a closing token of do, while, for, function and if blocks) by the `endtoken` correspondence (~3e3 distinct requests). Model/HangOp.lean `Punct` (format_punctuated_multiline: the comma of a one-value-per-line list in `return` and local assignments) by the `punct` correspondence (~4e3 distinct requests). Model/HangOp.lean `Sugar` (parentheses dropped / added around a single string argument; D5 as proved partial statement + witness) by the `sugar` correspondence (~2e3 distinct requests). The other transplant sites (multi-line argument lists of calls, table-argument sugar, field separators) have no model yet: they are covered by ring 3 only.",
     "technique": "Lean 4 proofs on the trivia loader + comment-slot enumeration + census oracle",
     "rule": TRIVIA_RULE + PIPE_RULE + SLOT_RULE,
     "trusted_base": ["comment census: multiset of (kind, level, text) with line comments trimmed at the end and CRLF->LF inside block comments"],
@@ -324,11 +324,11 @@ PROPS["C14"] = {
 PROPS["C18"] = {
     "lean_modules": ["StyluaModel.Props.C18"],
     "theorem_prefix": "C18_",
-    "required_theorems": ["C18_json_partial", "C18_json", "C18_json_as_indexed", "C18_none_iff", "C18_ranges", "C18_unified", "C18_unified_none", "C18_unified_printed", "C18_header_roundtrip", "C18_unified_stale_index_rejected"],
+    "required_theorems": ["C18_json_partial", "C18_json", "C18_json_as_indexed", "C18_none_iff", "C18_ranges", "C18_unified", "C18_unified_none", "C18_unified_printed", "C18_header_roundtrip", "C18_unified_fixed", "C18_unified_pinned_violates"],
     "py": [cli.c18],
     "needs_cli": True,
     "level": "proof",
-    "level_text": "Proof for the JSON producer (StyLua's own code): for every valid edit script over files of any length the mismatches, applied as line-range replacements, yield exactly the new text (the code records every inserted / deleted line since fix 4e60dbe; for the code as pinned - first line only - the statement held only when pure insertions were one line long, `C18_json_partial`, with `C18_pinned_violates` as the witness); no mismatch iff nothing differs; reported ranges are the script's. The unified format: Model/Unified.lean mirrors the code of the `similar` crate that `output_diff_unified` calls (group_diff_ops with its head / tail trimming and splitting of long equal runs, hunk headers incl. the empty-range and length-1 spellings, hunk bodies, the missing-newline marker), and `C18_unified` proves that a strict patch applier (every context / deleted line present where the header says, all four header numbers consistent with the body and with the output position, no fuzz) accepts these hunks and reproduces the new file - for every valid in-order script, files of any length and every context radius; nothing printed => files equal, a script with a change => a hunk is printed. The edit script itself (Myers + compaction inside `similar`) is a parameter of both models; the summary format is checked by the oracle only.",
+    "level_text": "Proof for the JSON producer (StyLua's own code): for every valid edit script over files of any length the mismatches, applied as line-range replacements, yield exactly the new text (the code records every inserted / deleted line since fix 4e60dbe; for the code as pinned - first line only - the statement held only when pure insertions were one line long, `C18_json_partial`, with `C18_pinned_violates` as the witness); no mismatch iff nothing differs; reported ranges are the script's. The unified format: Model/Unified.lean mirrors the code of the `similar` crate that `output_diff_unified` calls (group_diff_ops with its head / tail trimming and splitting of long equal runs, hunk headers incl. the empty-range and length-1 spellings, hunk bodies, the missing-newline marker), and `C18_unified` proves that a strict patch applier (every context / deleted line present where the header says, all four header numbers consistent with the body and with the output position, no fuzz) accepts these hunks and reproduces the new file - for every valid script, files of any length and every context radius (`C18_unified_fixed`: the code renumbers similar's operations since fix a2545ec; for the pinned code the statement needed in-order index fields, and `C18_unified_pinned_violates` is the real counterexample, tests/inputs/table-6.lua); nothing printed => files equal, a script with a change => a hunk is printed. The edit script itself (Myers + compaction inside `similar`) is a parameter of both models; the summary format is checked by the oracle only.",
     "level_note": "Trusted: Lean kernel; Model/Diff.lean tied by the `diffjson` correspondence and Model/Unified.lean by the `diffuni` correspondence (the bytes the binary prints must equal the model's rendering of the hunks for the script `similar` computed, and the model's strict applier must accept them - so scripts with stale index fields, which the theorem's hypothesis excludes, are still decided); edit scripts computed with the same `similar` version through the harness; `ratio() == 1.0` is modelled with exact arithmetic (f32 rounding not modelled); independent Python appliers for JSON and unified diffs; a multi-line pure insertion has not been observed between a file and its formatted form (count reported in the evidence).",
     "technique": "Lean 4 induction over edit scripts (JSON mismatches; unified hunks through a loop invariant of similar's grouping) + byte-for-byte correspondence with the real JSON / unified output + independent diff appliers as oracle",
     "rule": "40 (thorough 120) seeded corpus files + 10 special pairs (no final newline, CRLF, first / last line changes, 14 separated hunks, multi-line expansion and deletion, blank lines, already formatted, empty) x 4 output formats. ring 2 (`diffjson`): line ranges and line contents of every reported mismatch vs Model/Diff.lean; (`diffuni`): the complete stdout of `--check --output-format unified` vs the rendering of Model/Unified.lean's hunks, plus the model's strict applier on them. ring 3: applying the JSON mismatches / the unified diff to the original gives the library's output byte for byte; a diff is printed iff the file differs (all formats). distinct_nontrivial = distinct scripts.",
